@@ -1,0 +1,54 @@
+//go:build verif
+
+package store
+
+import (
+	"context"
+	"database/sql"
+
+	"go.uber.org/zap"
+
+	api2 "github.com/zilliztech/milvus-cdc/core/api"
+	"github.com/zilliztech/milvus-cdc/core/log"
+)
+
+// NewMySQLMetaStoreWithDB builds the MySQL meta store around an already opened
+// database handle (the production constructor hard-codes sql.Open("mysql", ...)).
+func NewMySQLMetaStoreWithDB(ctx context.Context, db *sql.DB, rootPath string, replicateStore api2.ReplicateStore) (*MySQLMetaStore, error) {
+	s := &MySQLMetaStore{}
+	s.log = log.With(zap.String("meta_store", "mysql")).Logger
+	s.db = db
+	txnMap := make(map[any]func() *sql.Tx)
+	var err error
+	s.taskInfoStore, err = NewTaskInfoMysqlStore(ctx, db, rootPath, txnMap)
+	if err != nil {
+		return nil, err
+	}
+	s.taskCollectionPositionStore, err = NewTaskCollectionPositionMysqlStore(ctx, db, rootPath, txnMap)
+	if err != nil {
+		return nil, err
+	}
+	s.txnMap = txnMap
+	s.replicateStore = replicateStore
+	return s, nil
+}
+
+// NewMySQLReplicateStoreWithDB builds the MySQL replicate store around an opened handle.
+func NewMySQLReplicateStoreWithDB(ctx context.Context, db *sql.DB, rootPath string) (*MySQLReplicateStore, error) {
+	s := &MySQLReplicateStore{}
+	s.rootPath = rootPath
+	s.log = log.With(zap.String("meta_store", "mysql")).Logger
+	s.db = db
+	_, err := db.ExecContext(ctx, `
+		CREATE TABLE IF NOT EXISTS task_msg (
+			task_msg_key VARCHAR(255) NOT NULL,
+			task_msg_value JSON NOT NULL,
+			PRIMARY KEY (task_msg_key),
+			INDEX idx_key (task_msg_key)
+		)
+	`)
+	if err != nil {
+		return nil, err
+	}
+	return s, nil
+}
